@@ -1,4 +1,5 @@
 pub mod c01;
+pub mod c02;
 pub mod c05;
 pub mod c06;
 pub mod c07;
@@ -36,7 +37,7 @@ impl Prop {
 }
 
 pub fn registry() -> Vec<Prop> {
-    vec![c01::prop(), c05::prop(), c06::prop(), c07::prop(), c08::prop()]
+    vec![c01::prop(), c02::prop(), c05::prop(), c06::prop(), c07::prop(), c08::prop()]
 }
 
 pub fn find(id: &str) -> Option<Prop> {
